@@ -444,7 +444,7 @@ func verifC15Selection(style int) {
 			if !verifC15RuleSelects(rule, o) {
 				rt.Assert(!inRaw, "select/object-not-matching-rule-listed")
 			} else if inRaw {
-				// selected by the rule, outside the parent's namespace: listed but filtered on the wire
+				// selected by the rule, outside the parent's namespace: an implementation may list it and filter it on the wire (not a required cover: listing per namespace is just as good)
 				rt.Cover("foreign-namespace-object-listed-then-filtered")
 			}
 		}
